@@ -271,13 +271,16 @@ struct Rec {
     long ran = 0, ran_on = -1, canc = 0, fin = 0;   // fin: 1 coroutine completed after a run, 2 after a cancel
     std::unique_ptr<future<int>> fut, afut;
     promise<int> aprom;
+    Rec *susp = nullptr;                    // run(async): the coroutine suspends on susp->sfut after its body
+    std::unique_ptr<future<int>> sfut;      // resolved when this submission runs, broken when it is cancelled
+    promise<int> sprom;
     std::coroutine_handle<> h;
 };
 
 static thread_pool *g_pool = nullptr;
 static std::vector<Rec *> *g_tops = nullptr;   // top-level submissions by label
 static long g_destroyed = 0;
-static thread_local Rec *t_pending = nullptr;  // submission whose enqueue() has not executed yet
+static thread_local std::deque<Rec *> t_pending;  // submissions whose enqueue() has not executed yet, in enqueue order
 static thread_local int t_api = 0;             // > 0: the thread is inside a pool call made by the scenario (not in the worker loop)
 struct ApiScope {
     ApiScope() { t_api++; }
@@ -312,10 +315,16 @@ static void hook_point(const char *id) {
     if (!lock && std::strcmp(id, "p_peek")) return;   // points of other components (future, awaiter) are not scheduling points here
     pctl::yield(pctl::AtPoint, ctl::point_code(id), nullptr);
     check_destroyed();
-    if (lock && t_pending) {
-        t_pending->submitted = true;
-        t_pending = nullptr;
+    if (lock && !t_pending.empty()) {
+        t_pending.front()->submitted = true;
+        t_pending.pop_front();
     }
+}
+
+// a blocking wait inside the library (e.g. join()/wait() on a future): the thread is disabled until its predicate holds
+static void hook_block(const char *id, bool (*pred)(void *), void *ctx) {
+    if (pctl::t_id < 0 || !pctl::G.active) return;
+    pctl::yield(pctl::Blocked, ctl::point_code(id), [pred, ctx] { return pred(ctx); });
 }
 
 static void submit(Rec *r);
@@ -331,12 +340,14 @@ static void on_run(Rec *r) {
     r->ran++;
     r->ran_on = pctl::t_id;
     vh::print_obs({100, r->label, 1, (long)pctl::t_id, pool_locked()});
+    if (r->sfut) r->sprom(1);   // somebody's coroutine is suspended on this submission
     if (!r->body.empty()) start_now(body_coro(r));
 }
 
 static void on_cancel(Rec *r) {
     r->canc++;
     vh::print_obs({100, r->label, 2, (long)pctl::t_id, pool_locked()});
+    if (r->sfut) r->sprom = promise<int>();   // broken promise for the coroutine suspended on this submission
 }
 
 // The body of a job: a list of pool operations.  It runs with the coroutine ready queue of the thread switched
@@ -368,13 +379,13 @@ static async<void> body_coro(Rec *r) {
             coro_queue::instance = saved;
             bool ok = false;
             try {
-                t_pending = hr;
+                t_pending.push_back(hr);
                 co_await thread_pool::current();
                 ok = true;
             } catch (const await_canceled_exception &) {
             }
             saved = std::exchange(coro_queue::instance, nullptr);
-            if (t_pending == hr) t_pending = nullptr;   // already stopped: no hop
+            if (!hr->submitted) t_pending.erase(std::remove(t_pending.begin(), t_pending.end(), hr), t_pending.end());   // already stopped: no hop
             if (hr->submitted) {
                 if (ok) {
                     hr->ran++;
@@ -427,7 +438,7 @@ struct Peek {   // records the handle, does not suspend
 static async<void> hop_coro(Rec *r) {
     bool ok = false;
     try {
-        t_pending = r;
+        if (std::find(t_pending.begin(), t_pending.end(), r) == t_pending.end()) t_pending.push_back(r);
         co_await *g_pool;
         ok = true;
     } catch (const await_canceled_exception &) {
@@ -458,14 +469,21 @@ static async<void> awt_coro(Rec *r) {
     r->fin = ok ? 1 : 2;
 }
 
-static async<int> async_job(Guard g) {
+static async<int> async_job(Guard g, Rec *r) {
     g.run();
+    if (r->susp) {
+        // the coroutine suspends on something a later job of the same pool resolves; the worker must stay free
+        try {
+            co_await *r->susp->sfut;
+        } catch (const await_canceled_exception &) {
+        }
+    }
     co_return 7;
 }
 
 static void submit(Rec *r) {
     ApiScope api;
-    t_pending = r;
+    t_pending.push_back(r);
     switch (r->kind) {
         case 0: hop_coro(r).detach(); break;   // discarded suspend point: the coroutine starts the library's way
         case 1: {
@@ -486,8 +504,22 @@ static void submit(Rec *r) {
             g_pool->resume(suspend_point<void>(r->h));
             break;
         }
-        case 5: r->fut.reset(new future<int>(g_pool->run(async_job(Guard(r))))); break;
+        case 5: r->fut.reset(new future<int>(g_pool->run(async_job(Guard(r), r)))); break;
     }
+    t_pending.erase(std::remove(t_pending.begin(), t_pending.end(), r), t_pending.end());
+}
+
+// resume(suspend_point) with several prepared coroutines: recs[0] is popped (and enqueued) first
+static void submit_resume(const std::vector<Rec *> &recs) {
+    ApiScope api;
+    suspend_point<void> sp;
+    for (size_t i = recs.size(); i-- > 0;) {
+        start_now(res_coro(recs[i]));
+        sp << std::coroutine_handle<>(recs[i]->h);
+    }
+    for (Rec *r : recs) t_pending.push_back(r);
+    g_pool->resume(sp);
+    t_pending.clear();
 }
 
 static long fut_state(std::unique_ptr<future<int>> &f) {
@@ -508,15 +540,17 @@ static void run_case(const vh::Case &cs) {
     long n = 1;
     int maxcl = 0;
     struct Op {
-        int what;   // 2 submit, 3 stop, 4 worker(), 5 wait for a submission
+        int what;   // 2 submit, 3 stop, 4 worker(), 5 wait for a submission, 6 resume(suspend_point) with several coroutines
         Rec *rec;
         long arg = 0;
+        std::vector<Rec *> many;
     };
     std::vector<Op> progs[3];
     std::vector<std::unique_ptr<Rec>> recs;   // every record, owned
     std::vector<Rec *> tops;
     std::vector<long> sched;
     long nk = 0;
+    std::vector<std::pair<Rec *, long>> susp_of;
     auto kind_ok = [](long k) { return k >= 0 && k <= 5; };
     auto new_rec = [&](long label, long kind) {
         recs.emplace_back(new Rec());
@@ -537,7 +571,8 @@ static void run_case(const vh::Case &cs) {
             if (na > 6) ok = false;
             for (size_t i = 0; ok && i < na; i++) {
                 long z = op[3 + i];
-                if (z < 0 || z > 49) ok = false;
+                if (z < 0 || z > 89) ok = false;
+                if (z >= 50 && i + 1 != na) ok = false;
                 if (z == 6 && i + 1 != na) ok = false;
             }
             if (!ok) continue;
@@ -551,25 +586,38 @@ static void run_case(const vh::Case &cs) {
                 else if (z == 6) r->body.push_back({1, 0, nullptr});
                 else if (z == 7 || z == 8) r->body.push_back({2, z - 7, nullptr});
                 else if (z == 9) r->body.push_back({3, 0, new_rec(lbl, 0)});
-                else r->body.push_back({4, z - 10, nullptr});
+                else if (z < 50) r->body.push_back({4, z - 10, nullptr});
+                else susp_of.push_back({r, z - 50});
             }
             // a hop continuation's body is the rest of the body it interrupts
             for (size_t i = 0; i < r->body.size(); i++)
                 if (r->body[i].what == 3) r->body[i].rec->body.assign(r->body.begin() + i + 1, r->body.end());
-            progs[cl].push_back({2, r});
+            progs[cl].push_back({2, r, 0, {}});
             tops.push_back(r);
+            maxcl = std::max<int>(maxcl, (int)cl);
+        } else if (op[0] == 6 && op.size() == 3) {
+            long cl = op[1], k = op[2];
+            if (cl < 0 || cl > 2 || k < 1 || k > 9) continue;
+            Op o{6, nullptr, 0, {}};
+            for (long i = 0; i < k && tops.size() < 40; i++) {
+                Rec *r = new_rec((long)tops.size(), 4);
+                o.many.push_back(r);
+                tops.push_back(r);
+            }
+            if (o.many.empty()) continue;
+            progs[cl].push_back(o);
             maxcl = std::max<int>(maxcl, (int)cl);
         } else if (op[0] == 5 && op.size() == 3) {
             long cl = op[1], l = op[2];
             if (cl < 0 || cl > 2 || l < 0 || l >= 40 || nk >= 30) continue;
             nk++;
-            progs[cl].push_back({5, nullptr, l});
+            progs[cl].push_back({5, nullptr, l, {}});
             maxcl = std::max<int>(maxcl, (int)cl);
         } else if ((op[0] == 3 || op[0] == 4) && op.size() == 2) {
             long cl = op[1];
             if (cl < 0 || cl > 2 || nk >= 30) continue;
             nk++;
-            progs[cl].push_back({(int)op[0], nullptr});
+            progs[cl].push_back({(int)op[0], nullptr, 0, {}});
             maxcl = std::max<int>(maxcl, (int)cl);
         } else if (op[0] == 9) {
             sched.insert(sched.end(), op.begin() + 1, op.end());
@@ -578,19 +626,28 @@ static void run_case(const vh::Case &cs) {
     int m = maxcl + 1;
     int total = m + (int)n;
     g_tops = &tops;
+    for (auto &pr : susp_of)
+        if (pr.first->kind == 5 && pr.second < (long)tops.size() && tops[pr.second] != pr.first) {
+            pr.first->susp = tops[pr.second];
+            if (!pr.first->susp->sfut) {
+                pr.first->susp->sfut.reset(new future<int>());
+                pr.first->susp->sprom = pr.first->susp->sfut->get_promise();
+            }
+        }
 
     // ---- set up ----
     g_destroyed = 0;
     pctl::G.reset(total, m);
     auto &hk = cocls::verif::get_hooks();
     hk.point = &hook_point;
-    hk.block = nullptr;
+    hk.block = &hook_block;
     g_pool = new thread_pool((unsigned int)n);   // workers are adopted by pool_thread as tids m..m+n-1
     std::vector<std::thread> clients;
     for (int i = 0; i < m; i++) {
         clients.emplace_back(&pctl::thread_main, i, std::function<void()>([&, i] {
             for (auto &o : progs[i]) {
                 if (o.what == 2) submit(o.rec);
+                else if (o.what == 6) submit_resume(o.many);
                 else if (o.what == 3) {
                     ApiScope api;
                     g_pool->stop();
@@ -678,6 +735,7 @@ static void run_case(const vh::Case &cs) {
         std::_Exit(42);
     }
     hk.point = nullptr;
+    hk.block = nullptr;
     pctl::G.active = false;
     // ---- clean up: a forgotten coroutine is still suspended, a forgotten future is still pending ----
     for (auto &r : recs) {
@@ -685,6 +743,7 @@ static void run_case(const vh::Case &cs) {
         r->h = nullptr;
         if (r->fut && !r->fut->ready()) (void)r->fut.release();
         if (r->afut && !r->afut->ready()) (void)r->afut.release();
+        if (r->sfut && !r->sfut->ready()) (void)r->sfut.release();
     }
 }
 
